@@ -135,3 +135,21 @@ func readJSON(path string, v interface{}) error {
 	}
 	return json.Unmarshal(b, v)
 }
+
+// confirm is the determinism self-test: a verdict that reports a violation is believed only if two
+// re-executions of the same case report a violation too; otherwise the case is returned as unstable
+// (the caller turns that into a harness error - no verdict - never into a VIOLATION).
+func confirm[T any](run func() T, bad func(T) bool) (res T, stable bool) {
+	res = run()
+	if !bad(res) {
+		return res, true
+	}
+	for i := 0; i < 2; i++ {
+		if r2 := run(); !bad(r2) {
+			return r2, false
+		}
+	}
+	return res, true
+}
+
+const unstableMsg = "unstable verdict: a violation was reported once but did not reproduce in two re-executions of the same case (treated as a harness error)"
